@@ -148,6 +148,15 @@ def analyse(src: Source) -> List[Report]:
                     adds = [n for n in ast.walk(helper) if isinstance(n, ast.Call) and isinstance(n.func, ast.Attribute)
                             and n.func.attr == "add_child"]
                     rec_ok = bool(inner) and bool(rec) and bool(adds)
+                    # the same helper written with an explicit work list (normal form: an unconditional loop over all nodes below
+                    # its node parameter that attaches every copy to its parent's copy)
+                    hps = [a.arg for a in helper.args.args if a.arg not in ("self", "cls")]
+                    whole = [n for n in body_without_docstring(helper) if isinstance(n, ast.For) and isinstance(n.iter, ast.Call)
+                             and norm(n.iter.func) == "__subtree_nodes__" and len(n.iter.args) == 1 and isinstance(n.iter.args[0], ast.List)
+                             and len(n.iter.args[0].elts) == 1 and norm(n.iter.args[0].elts[0]) in hps]
+                    if not rec_ok and len(whole) == 1:
+                        rec_ok = any(isinstance(x, ast.Call) and isinstance(x.func, ast.Attribute) and x.func.attr == "add_child"
+                                     for x in ast.walk(whole[0]))
     rep.ob("R13.1-descendants", rec_ok, Loc(file, efg.lineno, entries[0].qual), f"recursive helper {helper_name}",
            "the branch must contain all descendants of the node (recursive construction over children)")
     act = entries[1].fn
